@@ -25,7 +25,7 @@ REQUIRED = ['calls_snapshotted', 'second_calls', 'deterministic_repeats_compared
 
 
 def gen_cases(tier, seed):
-    per = {'quick': 30, 'thorough': 1200}[tier]
+    per = {'quick': 60, 'thorough': 1200}[tier]
     out = []
     k = 0
     for sim in simreg.ALL_SIMS:
